@@ -53,6 +53,21 @@ def _unknowns(s):
 
 
 # =============================================================================== C19
+def growth_of(model, op):
+    """(count term, fill Val) when op appends words to data: append_n, or resize(size()+n, fill)"""
+    from .symex import mk_lin
+    dlp = model.lp('data')
+    if op[0] == 'append_n':
+        return op[1].term, op[2]
+    if op[0] == 'resize':
+        c, atoms = lin_parts(op[1].term)
+        sizes = [a for a in atoms if isinstance(a, tuple) and a[0] == 'size' and a[1] == dlp and a[2] == 0 and atoms[a] == 1]
+        if len(sizes) == 1:
+            rest = {a: k for a, k in atoms.items() if a is not sizes[0]}
+            return mk_lin(c, rest), op[2]
+    return None
+
+
 def shrink_target(model, s, op):
     """For a data-shrinking op returns the term of the new length, or None."""
     if op[0] == 'resize':
